@@ -166,7 +166,8 @@ def wiring(ctx, p, K):
     # binned result on the sampler's mask; the operand is taken in slim form
     m = c.lookup("binned_array_2d_from")
     rets = [r for r in wire.returns_of(m) if isinstance(r.value, ast.Call) and norm_text(r.value.func) == "Array2D"]
-    ok = len(rets) == 1 and norm_text(wire.kw(rets[0].value).get("mask")) == "self.mask" and norm_text(wire.kw(rets[0].value).get("values")) == "binned_array_2d"
+    bcalls = wire.calls_to(p, m, p.func(f"{OU}:binned_array_2d_from").key)
+    ok = len(rets) == 1 and len(bcalls) == 1 and norm_text(wire.kw(rets[0].value).get("mask")) == "self.mask" and wire.is_value_of(m, wire.kw(rets[0].value).get("values"), bcalls[0])
     slim = any(isinstance(n, ast.Assign) and norm_text(n.targets[0]) == "array" and norm_text(n.value) == "array.slim" for n in m.body_nodes())
     ctx.ob(rule, f"{c.key}.binned_array_2d_from:return", ok and slim, where=m, node=rets[0] if rets else m.node, construct=norm_text(rets[0].value) if rets else "", message="the binned values must be returned as an Array2D on self.mask; the operand is used in slim form")
     # array_via_func_from: func on over_sampled_grid, then binned untouched
@@ -253,9 +254,10 @@ def decorator(ctx, p):
     ctx.ob(rule, w.key + ":flag", ok, where=w, node=asg[0] if asg else w.node, construct=norm_text(asg[0]) if asg else "", message="the branch must be selected by perform_over_sampling_from(grid=grid, ...)")
     # over-sampled-grid input: func on grid.grid then binned by grid.over_sampler
     gos = [r for r in rets if isinstance(r.value, ast.Call) and isinstance(r.value.func, ast.Attribute) and r.value.func.attr == "binned_array_2d_from"]
-    ok = len(gos) == 1 and norm_text(gos[0].value.func.value) == "grid.over_sampler" and norm_text(wire.kw(gos[0].value).get("array")) == "result"
-    res = [n for n in w.body_nodes() if isinstance(n, ast.Assign) and norm_text(n.targets[0]) == "result"]
-    ok = ok and len(res) == 1 and isinstance(res[0].value, ast.Call) and norm_text(res[0].value.func) == "func" and len(res[0].value.args) >= 2 and norm_text(res[0].value.args[1]) == "grid.grid"
+    ok = len(gos) == 1 and norm_text(gos[0].value.func.value) == "grid.over_sampler"
+    if ok:
+        arr = wire.resolve_local(w, wire.kw(gos[0].value).get("array"))   # the result of func, directly or through a local
+        ok = isinstance(arr, ast.Call) and norm_text(arr.func) == "func" and len(arr.args) >= 2 and norm_text(arr.args[0]) == "obj" and norm_text(arr.args[1]) == "grid.grid"
     ctx.ob(rule, w.key + ":pre-oversampled", ok, where=w, node=gos[0] if gos else w.node, construct=norm_text(gos[0].value) if gos else "", message="a pre-over-sampled grid must be evaluated on grid.grid and binned by grid.over_sampler, untouched")
     # sub_size == 1 falls through to plain evaluation
     f = m.functions.get("perform_over_sampling_from")
